@@ -2,7 +2,9 @@
   C09-CTE  a CTE body is evaluated once: a reference may inline (clone) the bound CTE body only on a path guarded by a
            test that makes double evaluation unobservable — a volatility predicate or a reference count — in addition to
            the syntactic `materialized` flag.   (volatility guards shared with C02-VOL are evaluated under C02.)
-Not decided: decorrelation correctness (value-level plan rewriting)."""
+  C09-GROUPIDX  decorrelation through an Aggregate: the position inserted into every grouping set is the same expression as the
+           column index stored in the column map for that correlated column
+Not decided: decorrelation correctness in general (value-level plan rewriting)."""
 import re
 from .framework import RuleResult
 from .mir import Fn, controlling_calls, switch_edges, resolve_bool
@@ -16,6 +18,10 @@ GUARD_NAME = re.compile(r"volatil|ref_?count|reference_count|num_references|sing
 
 
 def run(ctx):
+    return _rule_cte(ctx) + [rule_groupidx(ctx["facts"])]
+
+
+def _rule_cte(ctx):
     facts = ctx["facts"]
     r = RuleResult("C09-CTE", "inlining a CTE body at a reference is guarded by a volatility / reference-count test", floor=1)
     recs = facts.fns_matching(lambda i: "bind_from::FromBinder" in i and i.endswith("::bind_cte"))
@@ -70,6 +76,64 @@ def run(ctx):
             r.violate(fn.id, "inline-cte-body", f"the bound CTE body is cloned into this reference guarded only by {sorted(set(guards + fld_guards))}: a CTE referenced twice is "
                       "evaluated twice (WITH c AS (SELECT random() r) SELECT a.r = b.r FROM c a, c b returns false)", rec["file"], c.line)
     return [r]
+
+
+def _expr_key(fn, op, at, depth=3):
+    """canonical shape of an integer expression: ('add', k1, k2) | leaf identity"""
+    if op[0] == "k":
+        return ("const", op[1].get("v"))
+    o = fn.origin(op, at=at)
+    if o[0] == "rv" and o[1][0] == "bin" and depth > 0:
+        opn = o[1][1].replace("WithOverflow", "").replace("Unchecked", "")
+        # origin() of `(_t.0)` of a checked op lands on the bin rvalue; operands are evaluated where the op is
+        return (opn, _expr_key(fn, o[1][2], None, depth - 1), _expr_key(fn, o[1][3], None, depth - 1))
+    proj = o[2] if len(o) > 2 and isinstance(o[2], list) else []
+    names = tuple(pp[1] for pp in proj if isinstance(pp, list) and pp[0] == "f")
+    if o[0] in ("arg", "local"):
+        return (o[0], fn.local_name(o[1]), names)
+    if o[0] == "call":
+        return ("call", o[1].name.rsplit("::", 1)[-1], o[1].bb, names)
+    return (o[0],)
+
+
+def rule_groupidx(facts):
+    """Decorrelation through an Aggregate appends each correlated column to GROUP BY. The position it gets is used twice: it is
+    inserted into every grouping set and stored in the column map that rewrites references above the aggregate. Both have to be
+    the same expression (the position of the pushed group expression); if they differ, the correlated column is missing from
+    the grouping sets (NULL for every group) or the join condition above compares a different column."""
+    r = RuleResult("C09-GROUPIDX", "DependentJoinPushdown (Aggregate arm): the index added to every grouping set equals the column index "
+                   "recorded in the column map for the same correlated column", floor=1)
+    recs = facts.fns_matching(lambda i: i.endswith("plan_subquery::DependentJoinPushdown::pushdown"))
+    if not recs:
+        r.missing_anchor("DependentJoinPushdown::pushdown")
+        return r
+    rec = recs[0]
+    fn = Fn(rec)
+    r.functions.add(fn.id)
+    pushes = [c for c in fn.calls() if c.name.endswith("Vec::<T, A>::push") and "group_exprs" in str(fn.origin(c.args[0], at=c.bb))]
+    inserts = [c for c in fn.calls() if c.name.endswith("BTreeSet::<T, A>::insert") and (c.callee.get("res_args") or c.callee.get("args") or [""])[0] == "usize"]
+    refs = []
+    for b, i, pl, rv, ln in fn.assigns():
+        if rv[0] == "agg" and rv[1][0] == "adt" and rv[1][1].endswith("column_expr::ColumnReference") and "column" in rv[1][3]:
+            refs.append((b, rv[2][rv[1][3].index("column")], ln))
+    if not pushes or not inserts or not refs:
+        r.missing_anchor("group_exprs.push / grouping set insert / ColumnReference construction in the Aggregate arm")
+        return r
+    for p in pushes:
+        ins = [c for c in inserts if c.bb in fn.reachable_from(p.bb)]
+        rfs = [x for x in refs if x[0] in fn.reachable_from(p.bb)]
+        for c in ins:
+            r.call_sites += 1
+            ki = _expr_key(fn, c.args[1], c.bb)
+            for b, op, ln in rfs:
+                kr = _expr_key(fn, op, b)
+                ok = ki == kr
+                r.inst({"fn": fn.id, "grouping_set_insert_line": c.line, "column_map_line": ln, "same_expression": ok}, ok)
+                if not ok:
+                    r.violate(fn.id, "group-index-disagreement", f"the index inserted into the grouping sets (line {c.line}) and the column index recorded in "
+                              f"the column map (line {ln}) are different expressions ({ki} vs {kr}): the appended correlated column is not grouped on, "
+                              "or references above the aggregate point at another column", rec["file"], c.line)
+    return r
 
 
 CLAIM = {
